@@ -757,15 +757,23 @@ fn main() {
             let cur = host.cursor();
             // the subject's worker threads are kept busy for a moment (as when they are descheduled) while the requests
             // arrive, so that all of them become ready in one batch
+            // (held until every request has been written, at most 3 s: how long that takes depends on the machine's load)
+            let go = std::sync::Arc::new(std::sync::atomic::AtomicBool::new(false));
             for _ in 0..4 {
-                w.rt.spawn(async {
-                    std::thread::sleep(Duration::from_millis(60));
+                let go = go.clone();
+                w.rt.spawn(async move {
+                    let t = std::time::Instant::now();
+                    while !go.load(std::sync::atomic::Ordering::SeqCst) && t.elapsed() < Duration::from_secs(3) {
+                        std::thread::sleep(Duration::from_millis(1));
+                    }
                 });
             }
             std::thread::sleep(Duration::from_millis(5));
             for (i, cl) in conns.iter_mut().enumerate() {
                 let _ = cl.send(&build_request("GET", &format!("/burst?i={i}"), &hv, None, None));
             }
+            std::thread::sleep(Duration::from_millis(20));
+            go.store(true, std::sync::atomic::Ordering::SeqCst);
             let mut answered = 0usize;
             for cl in conns.iter_mut() {
                 if cl.read_response(false, Duration::from_secs(20)).map(|m| m.status()) == Ok(200) {
@@ -792,6 +800,64 @@ fn main() {
             }
         }
         res.cov("burst_requests_sampled", nburst as u64);
+        // the same pressure without a scheduler's help: one task polls 300 key reads in a row (the other worker thread is
+        // held meanwhile, so the key keeper's state task cannot run in between and its action queue of 100 fills up); each
+        // read must wait its turn and return the latched key, none may come back empty-handed
+        {
+            use std::future::Future;
+            w.set_key(Some(K1));
+            let kk = w.shared.get_key_keeper_shared_state();
+            let go = std::sync::Arc::new(std::sync::atomic::AtomicBool::new(false));
+            let g2 = go.clone();
+            w.rt.spawn(async move {
+                let t = std::time::Instant::now();
+                while !g2.load(std::sync::atomic::Ordering::SeqCst) && t.elapsed() < Duration::from_secs(3) {
+                    std::thread::sleep(Duration::from_millis(1));
+                }
+            });
+            std::thread::sleep(Duration::from_millis(10));
+            let n_reads = 300usize;
+            let (ok, failed, empty) = w.rt.block_on(async {
+                let h = tokio::spawn(async move {
+                    let mut futs: Vec<std::pin::Pin<Box<dyn Future<Output = Option<Result<Option<String>, String>>> + Send>>> = Vec::new();
+                    for _ in 0..n_reads {
+                        let kk = kk.clone();
+                        futs.push(Box::pin(async move { Some(kk.get_current_key_guid().await.map_err(|e| e.to_string())) }));
+                    }
+                    let mut out: Vec<Option<Result<Option<String>, String>>> = (0..n_reads).map(|_| None).collect();
+                    std::future::poll_fn(|cx| {
+                        let mut pending = false;
+                        for (i, f) in futs.iter_mut().enumerate() {
+                            if out[i].is_none() {
+                                match f.as_mut().poll(cx) {
+                                    std::task::Poll::Ready(v) => out[i] = v,
+                                    std::task::Poll::Pending => pending = true,
+                                }
+                            }
+                        }
+                        if pending {
+                            std::task::Poll::Pending
+                        } else {
+                            std::task::Poll::Ready(())
+                        }
+                    })
+                    .await;
+                    out
+                });
+                tokio::time::sleep(Duration::from_millis(30)).await;
+                go.store(true, std::sync::atomic::Ordering::SeqCst);
+                let out = h.await.unwrap_or_default();
+                let ok = out.iter().filter(|r| matches!(r, Some(Ok(Some(g))) if g == K1.0)).count();
+                let failed = out.iter().filter(|r| matches!(r, Some(Err(_)))).count();
+                let empty = out.iter().filter(|r| matches!(r, Some(Ok(None)))).count();
+                (ok, failed, empty)
+            });
+            evals += n_reads as u64;
+            if ok != n_reads {
+                res.violation("key-read-empty-handed-while-latched:queue-pressure", &format!("{n_reads} reads of the latched key issued back to back by one task (more than the state task's queue holds): {ok} returned the key, {failed} failed, {empty} returned none - a request signed at that moment goes out unsigned"), json!({"family": "key-reads-under-queue-pressure", "reads": n_reads}));
+            }
+            res.cov("key_reads_under_queue_pressure", n_reads as u64);
+        }
         // exempt uploads: relayed unchanged, no signature demanded; while no key: nothing signed
         w.set_key(Some(K1));
         for (m, t, exempt) in [("PUT", "/vmAgentLog", true), ("POST", "/machine/?comp=telemetrydata", true), ("PUT", "/VMAGENTLOG", true), ("PUT", "/vmAgentLog?x=1", false), ("POST", "/vmAgentLog", false), ("PUT", "/machine/?comp=telemetrydata", false)] {
